@@ -37,6 +37,24 @@ type msgKind struct {
 	Make func(tag uint64) []byte
 }
 
+// sizedKinds: for some kinds ("<spec>|<kind>") a builder with a payload field of n bytes.
+var sizedKinds = map[string]func(tag uint64, n int) []byte{
+	"block-fetch|Block":            func(t uint64, n int) []byte { return enc(blockfetch.NewMsgBlock(filler(t, n))) },
+	"local-state-query|Result":     func(t uint64, n int) []byte { return enc(localstatequery.NewMsgResult(xcbor.B(filler(t, n)).Encode())) },
+	"local-tx-submission|SubmitTx": func(t uint64, n int) []byte { return enc(localtxsubmission.NewMsgSubmitTx(6, filler(t, n))) },
+}
+
+func (sp *protoSpec) sized(k msgKind) func(uint64, int) []byte { return sizedKinds[sp.Name+"|"+k.Name] }
+
+// filler is n patterned bytes that differ per tag.
+func filler(tag uint64, n int) []byte {
+	b := make([]byte, n)
+	for i := range b {
+		b[i] = byte(uint64(i)*31 + tag)
+	}
+	return b
+}
+
 // protoSpec describes one exported state map and how to run the engine on it.
 type protoSpec struct {
 	Name     string // unique, e.g. "chain-sync/NtN"
